@@ -98,6 +98,10 @@ const TABLES: &[&str] = &["albums", "tracks", "employees", "invoices", "t", "ord
 const COLS: &[&str] = &[
     "id", "title", "total", "name", "x", "y", "a", "b", "c", "start", "end", "city", "genre_id", "album_id",
 ];
+const KW_COLS: &[&str] = &[
+    "time", "timestamp", "tag", "percent", "system", "identity", "top", "snapshot", "user", "order", "date", "offset",
+    "partition", "window", "first name", "qualify",
+];
 const NEW: &[&str] = &["a", "b", "c", "d", "s", "k", "n", "m", "total", "x", "y", "z", "r1", "r2"];
 
 struct PGen<'a> {
@@ -109,6 +113,10 @@ struct PGen<'a> {
 
 impl<'a> PGen<'a> {
     fn col(&mut self) -> String {
+        if self.r.below(12) == 0 {
+            // names that are keywords in some dialects only
+            return format!("`{}`", self.r.pick(KW_COLS));
+        }
         if self.r.below(100) < self.bad || self.cols.is_empty() {
             return self.r.pick(COLS).to_string();
         }
@@ -510,7 +518,12 @@ pub fn tpl_program(r: &mut Rng) -> String {
         ),
         // named arguments, several orders
         6 => {
-            let mut args = vec!["a:1", "b:2", "c:3", "d:4"];
+            let mut args = if r.below(3) == 0 {
+                // some of them unknown to `f`
+                vec!["a:1", "zz:2", "yy:3", "d:4", "ww:5"]
+            } else {
+                vec!["a:1", "b:2", "c:3", "d:4"]
+            };
             r.shuffle(&mut args);
             let k = r.range(2, 4);
             format!(
@@ -602,29 +615,39 @@ pub struct Project {
 
 pub fn gen_project(r: &mut Rng, corpus: &Corpus) -> Project {
     let mut files: Vec<(String, String)> = Vec::new();
-    let nmods = r.range(1, 3);
-    let mod_names = ["artists", "orders", "lib", "util"];
+    let nmods = *r.pick(&[1usize, 2, 2, 3, 3, 4, 5]);
+    let stems = ["artists", "orders", "lib", "util"];
+    let dirs = ["", "", "sub", "staging", "marts", "sub/deep"];
     let mut refs: Vec<String> = Vec::new();
-    let mut used = Vec::new();
+    let mut used: Vec<String> = Vec::new();
     for k in 0..nmods {
-        let mut name = r.pick(&mod_names).to_string();
-        if used.contains(&name) {
-            name = format!("{name}{k}");
-        }
-        used.push(name.clone());
-        let nested = r.below(3) == 0;
-        let path = if nested {
-            format!("sub/{name}.prql")
+        // the same stem may appear in several directories (staging/orders, marts/orders)
+        let stem = r.pick(&stems).to_string();
+        let mut dir = r.pick(&dirs).to_string();
+        let mut path = if dir.is_empty() {
+            format!("{stem}.prql")
         } else {
-            format!("{name}.prql")
+            format!("{dir}/{stem}.prql")
         };
-        let modpath = if nested { format!("sub.{name}") } else { name.clone() };
-        let body = match r.below(6) {
+        if used.contains(&path) {
+            dir = format!("d{k}");
+            path = format!("{dir}/{stem}.prql");
+        }
+        used.push(path.clone());
+        let modpath = if dir.is_empty() {
+            stem.clone()
+        } else {
+            format!("{}.{stem}", dir.replace('/', "."))
+        };
+        let body = match r.below(9) {
             0 => "let input = read_parquet \"artists.parquet\"\n".to_string(),
             1 => "let x = (from z | select {y, u})\nlet w = (from z | derive {a = y, b = y})\n".to_string(),
             2 => "let x = (from z | select {y, u})\nlet inc = func by:1 v -> v + by\n".to_string(),
             3 => "let x = (from z | select {y, nope_unknown + })\n".to_string(), // syntax error in a non-root file
             4 => "let x = (from z | select {y, u} | filter missing_col > 1 | select {q})\n".to_string(),
+            5 => format!("let x = (from z | selectt{k} {{y, u}})\n"), // unknown function: resolver error in this file
+            6 => format!("let x = (from z{k} | filterr y > {k} | select {{y}})\n"),
+            7 => format!("# module {modpath}\n\nlet x = (\n  from z\n  sort u\n  select {{y, u{k} = u}}\n)\n\nlet helper = func a:1 b:2 v -> v + a + b\n"),
             _ => {
                 let mut rr = r.fork(7);
                 let p = gen_program(&mut rr, corpus);
@@ -636,17 +659,20 @@ pub fn gen_project(r: &mut Rng, corpus: &Corpus) -> Project {
         files.push((path, body));
     }
     // root(s)
-    let roots = *r.pick(&[1usize, 1, 1, 1, 1, 0, 2]);
+    let roots = *r.pick(&[1usize, 1, 1, 1, 1, 1, 0, 2]);
     let root_names = ["Project.prql", "Other.prql", "Main.prql"];
     for k in 0..roots {
-        let rf = &refs[r.below(refs.len())];
-        let body = match r.below(5) {
+        let rf = refs[r.below(refs.len())].clone();
+        let rf2 = refs[r.below(refs.len())].clone();
+        let body = match r.below(7) {
             0 => format!("{rf} | select y\n"),
             1 => format!(
                 "let favorite = [\n  {{artist_id = 120, last_listen = @2023-05-18}},\n  {{artist_id = 7, last_listen = @2023-05-16}},\n]\n\nfavorite\njoin side:left {rf} (==artist_id)\n"
             ),
             2 => format!("from t{k} | join j = {rf} (==y) | derive {{a = y, b = y}} | sort y | select {{a, b}} | take {}\n", 3 + k),
             3 => format!("{rf} | filter unknown_name_{k} > 1\n"),
+            4 => format!("from a = {rf} | join b = {rf2} (==y) | select {{a.y, b.y}} | take {}\n", 2 + k),
+            5 => format!("from {rf}\nappend {rf2}\nsort y\n"),
             _ => format!("from {rf}\nderive k{k} = y + 1\n"),
         };
         files.push((root_names[k].to_string(), body));
@@ -691,6 +717,8 @@ const DIALECT_SENSITIVE: &[&str] = &[
     "from a | join side:full b (==id) | derive {z = a.x ?? b.x} | take 7",
     "from t | derive {q = a / b, m = a % b, p = math.pow a 2} | filter (q > 1.5) | take 4",
     "from t | select {r = (a / b | math.round 2), c = (s | text.contains 'x'), d = a // b}",
+    "from events | select {`time`, `tag`, `percent`, `user`, `top`, `snapshot`} | filter `system` > 1 | sort {`timestamp`}",
+    "from t | derive {`identity` = a, `offset` = b} | select {`identity`, `offset`, `date`, `window`}",
 ];
 
 impl<'a> Gen<'a> {
